@@ -19,6 +19,21 @@ type fsFile struct{ data []value }
 type fsHandle struct {
 	path   string
 	closed bool
+	file   *fsFile // the inode the handle was opened on
+	pos    int     // write offset
+}
+
+// fsWriteAt writes b at the handle's offset: bytes already there are
+// overwritten, the rest is appended; whatever lies beyond stays.
+func fsWriteAt(f *fsFile, h *fsHandle, b []value) {
+	for _, x := range b {
+		if h.pos < len(f.data) {
+			f.data[h.pos] = x
+		} else {
+			f.data = append(f.data, x)
+		}
+		h.pos++
+	}
 }
 
 type fsState struct {
@@ -70,12 +85,51 @@ func registerFsIntrinsics(e *Engine) {
 			r.fsCrash(fr)
 		}
 		fs := r.fsGet()
-		fs.files[path] = &fsFile{}
+		f := &fsFile{}
+		fs.files[path] = f
 		// a *os.File whose identity is the handle
 		res := fr.fn.Signature.Results().At(0).Type().(*types.Pointer).Elem()
 		cell := new(value)
 		*cell = zero(res)
-		fs.handles[cell] = &fsHandle{path: path}
+		fs.handles[cell] = &fsHandle{path: path, file: f}
+		return tuple{cell, iface{}}
+	}
+	// os.OpenFile for writing: O_CREATE / O_TRUNC / O_APPEND / O_EXCL are honoured
+	// (Linux flag values); without O_TRUNC an existing file keeps its content and
+	// is overwritten from offset 0.
+	in["os.OpenFile"] = func(fr *frame, args []value) value {
+		r := fr.r
+		path := r.fsPath(args[0], "os.OpenFile")
+		flag, ok := args[1].(int)
+		if !ok {
+			r.inconclusive("os.OpenFile with symbolic flags")
+		}
+		const oCreate, oExcl, oTrunc, oAppend = 0x40, 0x80, 0x200, 0x400
+		res := fr.fn.Signature.Results().At(0).Type().(*types.Pointer).Elem()
+		fs := r.fsGet()
+		f := fs.files[path]
+		if f == nil && flag&oCreate == 0 {
+			return tuple{(*value)(nil), r.fsNotExist("open", path)}
+		}
+		if f != nil && flag&oCreate != 0 && flag&oExcl != 0 {
+			return tuple{(*value)(nil), r.mkError("open " + path + ": file exists")}
+		}
+		if r.fsOp() {
+			r.fsCrash(fr)
+		}
+		if f == nil {
+			f = &fsFile{}
+			fs.files[path] = f
+		} else if flag&oTrunc != 0 {
+			f.data = nil
+		}
+		h := &fsHandle{path: path, file: f}
+		if flag&oAppend != 0 {
+			h.pos = len(f.data)
+		}
+		cell := new(value)
+		*cell = zero(res)
+		fs.handles[cell] = h
 		return tuple{cell, iface{}}
 	}
 	handle := func(fr *frame, v value, what string) *fsHandle {
@@ -93,17 +147,20 @@ func registerFsIntrinsics(e *Engine) {
 		if h.closed {
 			return tuple{0, r.mkError("write " + h.path + ": file already closed")}
 		}
-		f := r.fsGet().files[h.path]
+		f := h.file
+		if f == nil {
+			f = r.fsGet().files[h.path]
+		}
 		if f == nil { // renamed or removed meanwhile: the handle still refers to the old inode
 			f = &fsFile{}
 		}
 		if r.fsOp() {
 			// the process dies inside the write: nothing, half or all of the bytes are on disk
 			n := []int{0, len(b) / 2, len(b)}[r.choice(3)]
-			f.data = append(f.data, b[:n]...)
+			fsWriteAt(f, h, b[:n])
 			r.fsCrash(fr)
 		}
-		f.data = append(f.data, b...)
+		fsWriteAt(f, h, b)
 		return tuple{len(b), iface{}}
 	}
 	in["(*os.File).Close"] = func(fr *frame, args []value) value {
